@@ -211,6 +211,8 @@ class _ILoc:
         b = len(s) if sl.stop is None else sl.stop
         a = min(max(a, 0), len(s))
         b = min(max(b, a), len(s))
+        if isinstance(s, _CodedSeries):
+            return _CodedSeries(s.cats_, s.codes_, lo=s.lo + a, hi=s.lo + b)
         if isinstance(s, _CatSeries):
             return _CatSeries(s.cats_, s.present_, s.n, s.rpp, lo=s.lo + a, hi=s.lo + b)
         return SymSeries(s.n, s.page_nulls, s.rpp, s.dtype, s.name, s.ncats, s.vmax, s.vmin, s.lo + a, s.lo + b)
@@ -264,7 +266,9 @@ def _s_write_thrift(fobj, obj):
 def _s_make_definitions(data, no_nulls, datapage_version=1):
     ctx = _ctx()
     ctx.page += 1
-    if isinstance(data, _CatSeries):
+    if isinstance(data, _CodedSeries):
+        out = _CodedSeries(data.cats_, data.codes_, lo=data.lo, hi=data.hi, stripped=True)
+    elif isinstance(data, _CatSeries):
         out = _CatSeries(data.cats_, data.present_, data.n, data.rpp, lo=data.lo, hi=data.hi, stripped=True)
     else:
         out = SymSeries(data.n, data.page_nulls, data.rpp, data.dtype, data.name, data.ncats, data.vmax, data.vmin,
@@ -682,3 +686,139 @@ def h_cat_stats_rest(c0: int, c1: int, c2: int, p0: bool, p1: bool, p2: bool, n:
 
 def replay_h_cat_stats_rest(c0, c1, c2, p0, p1, p2, n):
     return replay_h_cat_stats(c0, c1, c2, p0, p1, p2, n)
+
+
+
+# ---------------------------------------------- C04-S1 with missing cells: explicit category codes ---
+class _UniqueCodes:
+    def __init__(self, vals):
+        self.vals = vals
+
+
+class _CodeVec:
+    """data.cat.codes as an int8 array: == -1 gives the null mask; np.unique() gives the sorted distinct codes"""
+    dtype = np.dtype("int8")
+
+    def __init__(self, codes, name="x"):
+        self.codes, self.name = codes, name
+
+    def __len__(self):
+        return len(self.codes)
+
+    def __eq__(self, v):
+        n = 0
+        for c in self.codes:
+            n += (c == v)
+        return _Count(n)
+
+    __hash__ = None
+
+    def astype(self, t, copy=False):
+        return self
+
+    def unique(self):
+        return _UniqueCodes(sorted(set(self.codes)))
+
+    def __array_function__(self, func, types, args, kwargs):
+        if func is np.unique:
+            return _UniqueCodes(sorted(set(self.codes)))
+        raise HarnessBroken("numpy function %s on category codes is not modelled" % getattr(func, "__name__", func))
+
+
+class _CatIndex(_ValueIndex):
+    """Index of category values: positional indexing follows numpy (negative positions count from the end)"""
+
+    def __getitem__(self, idx):
+        pos = idx.vals if isinstance(idx, _UniqueCodes) else list(idx)
+        return _CatIndex([self.vals[i] for i in pos])
+
+
+class _CodedAcc:
+    def __init__(self, s):
+        self.s = s
+
+    @property
+    def codes(self):
+        return _CodeVec(self.s.codes_[self.s.lo:self.s.hi] if not self.s.stripped else
+                        [c for c in self.s.codes_[self.s.lo:self.s.hi] if c != -1])
+
+    @property
+    def categories(self):
+        return _CatIndex(list(self.s.cats_))
+
+    def remove_unused_categories(self):
+        s = self.s
+        kept = [c for i, c in enumerate(s.cats_) if i in s.codes_]
+        return _Pruned(_CatIndex(kept))
+
+
+class _CodedSeries(SymSeries):
+    def __init__(self, cats, codes, lo=0, hi=None, stripped=False):
+        n = len(codes)
+        nn = 0
+        for c in codes:
+            nn += (c == -1)
+        SymSeries.__init__(self, n, [nn, 0, 0], max(n, 1), pd.CategoricalDtype([0, 1, 2]), "x", len(cats),
+                           lo=lo, hi=hi, stripped=stripped)
+        self.cats_, self.codes_ = cats, codes
+
+    @property
+    def cat(self):
+        return _CodedAcc(self)
+
+    def unique(self):
+        present = [i in self.codes_ for i in range(len(self.cats_))]
+        return _OrderedUnique(self.cats_, present)
+
+
+def h_cat_stats_nulls(c0: int, c1: int, c2: int, k0: int, k1: int, k2: int) -> bool:
+    """
+    pre: c0 != c1 and c1 != c2 and c0 != c2
+    pre: -1 <= k0 <= 2 and -1 <= k1 <= 2 and -1 <= k2 <= 2
+    post: __return__
+    """
+    # three rows with category codes k0..k2 (-1 = missing) over categories [c0, c1, c2] in any order: min/max are
+    # the smallest/largest value that occurs; none when every cell is missing; null_count = number of -1
+    cats, codes = [c0, c1, c2], [k0, k1, k2]
+    data = _CodedSeries(cats, codes)
+    f = SymFile(4)
+    f.seek(4)
+    ctx = Ctx([20, 20, 20, 20], [5, 5, 5], [3, 3, 3], [1, 1, 1], 24, 9)
+    wc = build(ctx, f)
+    se = parquet_thrift.SchemaElement(type=parquet_thrift.Type.INT64, name="x", repetition_type=1)
+    chunk = wc(f, data, se, compression=None, datapage_version=1, stats=True)
+    st = chunk.meta_data.statistics
+    present = [cats[k] for k in codes if k >= 0]
+    nn = len([k for k in codes if k == -1])
+    if st.null_count != nn:
+        return False
+    if not present:
+        return st.max is None and st.min is None
+    return st.max == ("plain-stat", max(present)) and st.min == ("plain-stat", min(present))
+
+
+def replay_h_cat_stats_nulls(c0, c1, c2, k0, k1, k2):
+    import os, shutil, tempfile
+    import pandas as pd
+    import fastparquet
+    cats, codes = [c0, c1, c2], [k0, k1, k2]
+    df = pd.DataFrame({"x": pd.Categorical.from_codes(codes, categories=cats)})
+    present = [cats[k] for k in codes if k >= 0]
+    d = tempfile.mkdtemp(prefix="c04-")
+    try:
+        fn = os.path.join(d, "t.parq")
+        try:
+            fastparquet.write(fn, df, stats=True)
+        except Exception as ex:
+            return False, "write raised %s" % type(ex).__name__
+        pf = fastparquet.ParquetFile(fn)
+        st = pf.statistics
+        mx, mn, nc = st["max"]["x"][0], st["min"]["x"][0], st["null_count"]["x"][0]
+        want = (max(present), min(present)) if present else (None, None)
+        if (mx, mn) != want or nc != codes.count(-1):
+            return True, "categorical column with categories %r and codes %r: statistics say min=%r max=%r " \
+                         "null_count=%r, stored values give min=%r max=%r null_count=%d" % (
+                             cats, codes, mn, mx, nc, want[1], want[0], codes.count(-1))
+        return False, "statistics exact"
+    finally:
+        shutil.rmtree(d, ignore_errors=True)
